@@ -25,7 +25,7 @@ def run_common(ctx, vfile, rels, what):
         "exact arithmetic (floating-point rounding not modelled; float inputs are exactly representable by construction)",
         "Coq theorems are about the whole-series semantics DSL/Sem.v of the translated Hermitian program in the concrete algebra of multi-index series of matrices; the index-level evaluator is tied to the code by the harnesses of C09/C18, the front-end normalisation of parameters/keys by C14",
         "the transformed problem is assumed to be wired like the original one (no tolerance comparison of block_diagonalize flips under the transformation)",
-        "hermitian=False: " + what + " are decided by the oracle only (the non-Hermitian program has no uniqueness theorem, see known finding C05-kept-distinct-energies)",
+        "hermitian=False: " + what + " are proved (*_nh_partial) only when kept matrix elements connect equal unperturbed energies (outside this class the non-Hermitian program violates its own defining conditions, known finding C05-kept-distinct-energies, so uniqueness does not apply) and for symmetric kept masks; elsewhere they are decided by the oracle only",
     ]
     ctx.translate()
     ctx.tie("k_translator", k_translator.tie_translator)
@@ -33,6 +33,8 @@ def run_common(ctx, vfile, rels, what):
     ctx.tie("k_semeq", k_semeq.tie_semeq, hermitian=True)
     ctx.oracle("o_relations[hermitian]", R.sweep, rels, ctx.n(10, 50), kw_for(ctx, True), parallel=True)
     ctx.oracle("o_relations[nonhermitian]", R.sweep, rels, ctx.n(6, 30), kw_for(ctx, False), parallel=True)
+    # inputs inside the class of the *_nh_partial theorems (kept elements connect equal unperturbed energies)
+    ctx.oracle("o_relations[nonhermitian,kept-equal-energies]", R.sweep, rels, ctx.n(5, 30), kw_for(ctx, False, nh_class=True), parallel=True)
     if not ctx.quick:
         # three parameters and total order 4 on the fast exact-float families (dense / sparse numpy branches)
         ctx.oracle("o_relations[hermitian,float,3 parameters]", R.sweep, rels, 40,
